@@ -12,7 +12,8 @@ from types import SimpleNamespace
 
 from . import env
 from .simdev import MODE_BOOT, MODE_SIGNER, MODE_UIHB, path_bytes
-from .simdev_admin import AdminSimDevice, compress
+from .simdev_admin import (AdminSimDevice, compress, ECHO_SHAPES, ONB_SHAPES, WIPE_SHAPES,
+                           UNLOCK_FAIL_SHAPES, UNLOCK_TRUE_BYTES, NEWPIN_SHAPES)
 from .transport import World, install
 
 MODE_BYTES = {"boot": MODE_BOOT, "signer": MODE_SIGNER, "uihb": MODE_UIHB, "unknown": 0xFF}
@@ -310,12 +311,18 @@ FAVOURABLE = {"echo": "t", "answers": "yes", "wipe": "t", "unlock": "t", "newpin
               "mode2": "signer", "keys": "t", "retry": "valid"}
 
 
-def scenario_from_model(cfg, e, rng, boundary=False, member=None, favourable=False):
+def scenario_from_model(cfg, e, rng, boundary=False, member=None, favourable=False, shapes=None):
     """Concretise one behaviour of GenAdmin (cfg + lazily chosen env). Dimensions the behaviour never
     looked at ("?") get seeded random members of their domain - or, for the PIN-decisive behaviours
     (`favourable`), the value that lets the command go on, so that a PIN the command should have
-    refused would reach the device. `member`: the member of the PIN content class to use."""
+    refused would reach the device. `member`: the member of the PIN content class to use.
+    `shapes`: how the device words its wrong / negative answers (see deviation_shapes)."""
     e = dict(e)
+    shapes = dict(shapes or {})
+    if e["onb"] in ("g:yes", "g:no"):
+        # is_onboarded() answers garbage; the device's ground truth is what follows the colon
+        shapes.setdefault("onb", rng.choice(ONB_SHAPES))
+        e["onb"] = e["onb"][2:]
     if favourable:
         for k, v in FAVOURABLE.items():
             if e[k] == "?":
@@ -325,7 +332,7 @@ def scenario_from_model(cfg, e, rng, boundary=False, member=None, favourable=Fal
                 "signer" if (cfg["plat"] == "sgx" or cfg["op"] == "pubkeys") else "boot")
         if e["onb"] == "?":
             e["onb"] = "no" if cfg["op"] == "onboard" else "yes"
-    pinc = e["pinc"] if e["pinc"] != "?" else rng.choice(sorted(PIN_MEMBERS))
+    pinc = e["pinc"] if e["pinc"] != "?" else ("ok" if favourable else rng.choice(sorted(PIN_MEMBERS)))
     first = member if member is not None else pin_of_class(pinc, rng, boundary)
     pins = [first]
     if cfg["src"] == "prompt" and e["retry"] == "valid":
@@ -343,9 +350,31 @@ def scenario_from_model(cfg, e, rng, boundary=False, member=None, favourable=Fal
         echo=_pick(e["echo"], ["t", "f"], rng), answers=answers,
         wipe=_pick(e["wipe"], ["t"], rng), unlock=_pick(e["unlock"], ["t", "f"], rng),
         newpin=_pick(e["newpin"], ["t", "f"], rng), mode2=_pick(e["mode2"], MODES, rng),
-        keys=_pick(e["keys"], ["t", "f"], rng), keys_fail_at=0, rng=rng)
+        keys=_pick(e["keys"], ["t", "f"], rng), keys_fail_at=0, rng=rng, shapes=shapes)
     sc.desc["pinc"] = pinc
     return sc
+
+
+def deviation_shapes(b):
+    """For a behaviour of the model whose only deviation is a wrong / negative device answer that
+    gates the seed or the PIN (it ends right there), every shape that answer can take; for a Ledger
+    behaviour that unlocked, the non-canonical positive answers. Each is a `shapes` argument."""
+    cfg, e, h = b["cfg"], b["env"], b["hist"]
+    if b["outcome"] == "err" and h:
+        last = h[-1]
+        if last == "echo" and e["echo"] == "f":
+            return [{"echo": x} for x in ECHO_SHAPES]
+        if last == "is_onboard" and e["onb"] in ("g:yes", "g:no"):
+            return [{"onb": x} for x in ONB_SHAPES]
+        if last in ("wipe", "sgx_onboard") and e["wipe"] == "f":
+            return [{"wipe": x} for x in WIPE_SHAPES]
+        if last == "unlock" and e["unlock"] == "f":
+            return [{"unlock": x} for x in UNLOCK_FAIL_SHAPES]
+        if last == "change_pin" and e["newpin"] == "f":
+            return [{"newpin": x} for x in NEWPIN_SHAPES[cfg["plat"]]]
+    if b["outcome"] == "ok" and cfg["plat"] == "ledger" and cfg["op"] != "onboard" and e["unlock"] == "t":
+        return [{"unlock_byte": x} for x in UNLOCK_TRUE_BYTES[1:]]
+    return []
 
 
 def pin_decisive(b):
@@ -360,8 +389,10 @@ def pin_decisive(b):
 
 def build(op, plat, any_pin, no_unlock, src, pins, outfile, mode, onb, echo, answers, wipe, unlock,
           newpin, mode2, keys, rng, keys_fail_at=None, upin=None, strict=False, no_exec=False,
-          devseed=None, cli=False):
-    """The concrete environment of one run (all fields are plain data: the replay file is this)."""
+          devseed=None, cli=False, shapes=None):
+    """The concrete environment of one run (all fields are plain data: the replay file is this).
+    `shapes`: {echo, onb, wipe, unlock, unlock_byte, newpin} -> how the device words that answer."""
+    shapes = shapes or {}
     desc = dict(op=op, plat=plat, any_pin=bool(any_pin), no_unlock=bool(no_unlock), src=src,
                 pins=list(pins), outfile=bool(outfile), mode=mode, onb=onb, echo=echo, answers=answers,
                 wipe=wipe, unlock=unlock, newpin=newpin, mode2=mode2, keys=keys,
@@ -370,7 +401,12 @@ def build(op, plat, any_pin, no_unlock, src, pins, outfile, mode, onb, echo, ans
                 devseed=devseed if devseed is not None else rng.randrange(1 << 30),
                 mode_byte=(MODE_BYTES[mode] if mode != "other" else rng.choice(OTHER_MODE_BYTES)),
                 mode2_byte=(MODE_BYTES[mode2] if mode2 != "other" else rng.choice(OTHER_MODE_BYTES)),
-                wipe_how=rng.choice(["refuse", "err", "bad"]), newpin_how=rng.choice(["refuse", "err"]),
+                echo_shape=shapes.get("echo") or rng.choice(ECHO_SHAPES),
+                onb_shape=shapes.get("onb"),
+                wipe_how=shapes.get("wipe") or rng.choice(WIPE_SHAPES),
+                unlock_how=shapes.get("unlock") or rng.choice(UNLOCK_FAIL_SHAPES),
+                unlock_byte=shapes.get("unlock_byte") or rng.choice(UNLOCK_TRUE_BYTES),
+                newpin_how=shapes.get("newpin") or rng.choice(NEWPIN_SHAPES[plat]),
                 yes=rng.choice(YES), no=rng.choice(NO), other=rng.choice(OTHER),
                 verbose=rng.random() < 0.3, cli=bool(cli))
     return Scenario(desc=desc)
@@ -381,6 +417,10 @@ def make_device(d):
                          with_keys=(d["op"] == "pubkeys"))
     dev.onboarded = d["onb"] == "yes"
     dev.echo_ok = d["echo"] == "t"
+    dev.echo_shape = None if dev.echo_ok else d.get("echo_shape", "last")
+    dev.onb_shape = d.get("onb_shape")
+    dev.unlock_fail_shape = d.get("unlock_how", "zero")
+    dev.unlock_true_byte = d.get("unlock_byte", 1)
     # SGX reports bootloader mode while locked; a device that is going to acknowledge a password
     # change without an unlock must already be unlocked
     dev.unlocked = d["plat"] == "sgx" and dev.onboarded and (
@@ -428,7 +468,9 @@ def run(sc, scratch, tag, prev_seed=None):
         Platform.set(Platform.LEDGER)
     else:
         Platform.set(Platform.SGX, {"sgx_host": "127.0.0.1", "sgx_port": 7777})
-    d0 = {"mode": mode_name(dev.mode), "onb": "yes" if dev.onboarded else "no",
+    # the device as it presents itself at the start ("garbled": it does not answer IS_ONBOARD)
+    d0 = {"mode": mode_name(dev.mode),
+          "onb": "garbled" if dev.onb_shape else ("yes" if dev.onboarded else "no"),
           "echo": "t" if dev.echo_ok else "f"}
     lines = answer_lines(d) + [("", "other")] if d["op"] == "onboard" else []
     prompt_pins = list(d["pins"]) if d["src"] == "prompt" else []
@@ -590,8 +632,9 @@ def project(world):
             evs.append(_ev("get_mode", t, ans=(mode_name(resp[1]) if good and len(resp) > 1 else "na"),
                            ok=okf))
         elif cmd == 0x06:
-            evs.append(_ev("is_onboard", t, ans=(("yes" if resp[1] == 1 else "no")
-                                                 if good and len(resp) > 1 else "na"), ok=okf))
+            wellformed = good and len(resp) > 1 and resp[1] in (0, 1)
+            evs.append(_ev("is_onboard", t, ans=(("yes" if resp[1] == 1 else "no") if wellformed else "na"),
+                           ok="t" if wellformed else "f"))
         elif cmd == 0xA4 or (cmd == 0x02 and mode == "boot"):
             evs.append(_ev("echo", t, ok="t" if (good and bytes(resp) == bytes(apdu)) else "f"))
         elif cmd == 0x44:
